@@ -22,6 +22,7 @@ if HERE not in sys.path:
 
 LAMINAPROP = (142.5e9, 8.7e9, 0.28, 5.1e9, 5.1e9, 5.1e9)
 ARPACK = {"lb", "freq", "an_lb", "an_freq"}       # results that pass through ARPACK (random start vector)
+NREF = 6                                          # reference runs that define the solver's own spread
 
 
 def _np():
@@ -584,7 +585,16 @@ def worker_lifecycle(job, f):
         r = None
         for q in path:
             r = lab.call(q)
-        refs[m] = dict(out=r["out"], h=r["h"], eig=r["eig"], etype=r["etype"], emsg=r["emsg"])
+        refs[m] = dict(out=r["out"], h=r["h"], eig=r["eig"], etype=r["etype"], emsg=r["emsg"], eigs=[])
+        if m in ARPACK and r["out"] == "ok":
+            # solver precision is what the solver shows for identical definition and history: NREF runs
+            refs[m]["eigs"].append(r["eig"])
+            for _ in range(NREF - 1):
+                lab = Lab(kind, record=False)
+                for q in path:
+                    r = lab.call(q)
+                if r["out"] == "ok":
+                    refs[m]["eigs"].append(r["eig"])
         _emit(f, dict(t="ref", m=m, res=refs[m]))
     for i, path in job["paths"]:
         lab = Lab(kind, record=job.get("record", True))
@@ -597,7 +607,6 @@ def worker_lifecycle(job, f):
             r["rep"] = bool(rep)
             r["eqRef"] = bool(r["out"] == "ok" and ref is not None and ref["out"] == "ok" and r["h"] == ref["h"])
             r["eqPrev"] = bool(rep and prev is not None and prev["out"] == r["out"] and prev["h"] == r["h"])
-            r["refeig"] = ref["eig"] if (ref is not None and ref["out"] == "ok") else None
             _emit(f, dict(t="step", i=i, j=j, res=r))
             prev = r
         _emit(f, dict(t="end", i=i))
@@ -703,6 +712,7 @@ def worker_main(jobfile):
 KINDS = ["Plate", "CPanel", "KPanel", "Assembly", "BayPlain", "BayBeta", "BayB1", "BayB1b", "BayB2", "BayT2",
          "Cyl", "Cone"]
 TOL = 30
+SPREAD_MULT = 32        # ARPACK results: |x - ref| <= 2^-TOL |ref| + SPREAD_MULT * (spread of the NREF reference runs)
 
 
 def _scratch():
@@ -789,9 +799,8 @@ def replay_paths(kind, paths, refs, build, scratch, tag, mutant=None, record=Tru
         prev = results[i][-1] if results[i] else None
         rep = bool(paths[i][j][1])
         results[i].append(dict(m=m, out="exc", h="", etype="crash", emsg="worker process died", args_same=True,
-                               eig=None, reads=[], writes=[], rbw=[], rep=rep, eqRef=False,
-                               eqPrev=bool(rep and prev is not None and prev["out"] == "exc" and prev["etype"] == "crash"),
-                               refeig=None))
+                               eig=None, writes=[], rbw=[], rep=rep, eqRef=False,
+                               eqPrev=bool(rep and prev is not None and prev["out"] == "exc" and prev["etype"] == "crash")))
         if not rep and j + 1 < len(paths[i]) and paths[i][j + 1][0] == m and paths[i][j + 1][1]:
             # the repetition of a call that kills the interpreter is not attempted again in a new process
             results[i].append(dict(results[i][-1], rep=True, eqPrev=True))
@@ -943,21 +952,24 @@ def _finite(v):
     return v is not None and all(math.isfinite(a) and math.isfinite(b) for a, b in v)
 
 
-def make_event(eid, kind, mode, steps, keep):
-    """steps: worker results; keep: attribute pairs that count for the drift check"""
-    ev = dict(id=eid, kind=kind, mode=mode, steps=[])
+def make_event(eid, kind, mode, steps, keep, refvals=None):
+    """steps: worker results; keep: attribute pairs that count for the drift check; refvals: reference
+    results (eigenvalue lists of the NREF reference runs go into the event, exact)"""
+    ev = dict(id=eid, kind=kind, mode=mode, steps=[], refs={})
     for r in steps:
         eig = r.get("eig")
-        refeig = r.get("refeig")
-        use = _finite(eig) and _finite(refeig) and r["out"] == "ok"
+        m = r["m"]
+        lists = [e for e in ((refvals or {}).get(m) or {}).get("eigs", []) if _finite(e)]
+        use = _finite(eig) and r["out"] == "ok" and len(lists) >= 2 and all(len(e) == len(eig) for e in lists)
+        if use and m not in ev["refs"]:
+            ev["refs"][m] = [_dy(e) for e in lists]
         ev["steps"].append(dict(
-            m=r["m"], rep=bool(r["rep"]), out=r["out"], etype=r["etype"], emsg=r["emsg"],
+            m=m, rep=bool(r["rep"]), out=r["out"], etype=r["etype"], emsg=r["emsg"],
             eqRef=bool(r["eqRef"]), eqPrev=bool(r["eqPrev"]), argsSame=bool(r["args_same"]),
             rbw=[list(a) for a in r["rbw"] if tuple(a) in keep],
             writes=[list(a) for a in r["writes"]],
-            eig=_dy(eig) if use else [], refeig=_dy(refeig) if use else []))
+            eig=_dy(eig) if use else []))
     return ev
-
 
 REF_OVERRIDE = {("Assembly", "get_k0_conn_arg"): ["_panels_k0", "get_k0_conn_arg"]}
 
@@ -1022,7 +1034,7 @@ def tlc_cfg(kinds, maxlen, devs="all", invariants=True):
 def judge(rep, tag, events, info, mode):
     """trace validation by TLC; returns {event id: (verdict, detail)}"""
     from common import validate_trace
-    cfg = "CONSTANTS Kinds <- AllKinds\nMaxLen = 0\nDeviations <- AllDeviations\nTol = %d\n" % TOL
+    cfg = "CONSTANTS Kinds <- AllKinds\nMaxLen = 0\nDeviations <- AllDeviations\nTol = %d\nSpreadMult = %d\n" % (TOL, SPREAD_MULT)
     verdicts, results, problems = validate_trace(tag, "Trace_Lifecycle", cfg, events, timeout=3000)
     for res in results:
         rep.add_tlc("Trace_Lifecycle(%s)" % mode, res)
@@ -1149,7 +1161,7 @@ def _run(rep, rng, tier, seed, build, mutant, kinds, maxlen, scratch):
     rep.cov["graph"] = stats
     total_paths = sum(len(p) for p in plan.values())
     nproc_total = 14
-    replays, problems = {}, []
+    replays, problems, refvals_of = {}, [], {}
 
     def do_kind(kind):
         share = max(1, int(round(nproc_total * len(plan[kind]) / float(max(1, total_paths)))))
@@ -1158,6 +1170,7 @@ def _run(rep, rng, tier, seed, build, mutant, kinds, maxlen, scratch):
     with cf.ThreadPoolExecutor(max_workers=len(kinds)) as ex:
         for kind, (res, refvals, pr) in zip(kinds, ex.map(do_kind, kinds)):
             replays[kind] = res
+            refvals_of[kind] = refvals
             for p in pr:
                 rep.machinery(p)
     ever_written = {}
@@ -1171,7 +1184,7 @@ def _run(rep, rng, tier, seed, build, mutant, kinds, maxlen, scratch):
     for kind in kinds:
         keep = graphs[kind].universe | ever_written[kind]
         for path, steps in replays[kind]:
-            ev = make_event(len(events), kind, "abstract", steps, keep)
+            ev = make_event(len(events), kind, "abstract", steps, keep, refvals_of[kind])
             info[ev["id"]] = (kind, path)
             events.append(ev)
     verdicts = judge(rep, "c20-tr", events, info, "abstract")
@@ -1197,12 +1210,12 @@ def _run(rep, rng, tier, seed, build, mutant, kinds, maxlen, scratch):
         g = graphs[kind]
         seqs = [[a] for a in g.methods] + [[a, b] for a in g.methods for b in g.methods]
         seqs += [[a, b, c] for a in g.methods for b in g.methods for c in g.methods]
-        res, _, pr = replay_kind(kind, g, seqs, build, scratch, nproc_total, mutant=mutant, record=False)
+        res, crefs, pr = replay_kind(kind, g, seqs, build, scratch, nproc_total, mutant=mutant, record=False)
         for p in pr:
             rep.machinery(p)
         cevents, cinfo = [], {}
         for path, steps in res:
-            ev = make_event(len(cevents), kind, "concrete", steps, set())
+            ev = make_event(len(cevents), kind, "concrete", steps, set(), crefs)
             cinfo[ev["id"]] = (kind, path)
             cevents.append(ev)
         cverdicts = judge(rep, "c20-trc", cevents, cinfo, "concrete")
@@ -1316,7 +1329,7 @@ def replay(path, build):
                 rep.machinery("TLC on MC_Lifecycle failed: " + mc.errors())
                 return rep.finish()
             g = parse_graphs(mc.out)[kind]
-            res, _, pr = replay_kind(kind, g, [r["path"]], build, scratch, 1, record=(r.get("mode") != "concrete"))
+            res, rrefs, pr = replay_kind(kind, g, [r["path"]], build, scratch, 1, record=(r.get("mode") != "concrete"))
             for p in pr:
                 rep.machinery(p)
             w = set()
@@ -1325,7 +1338,7 @@ def replay(path, build):
                     w.update(tuple(a) for a in s["writes"])
             events, info = [], {}
             for pth, steps in res:
-                ev = make_event(len(events), kind, r.get("mode", "abstract"), steps, g.universe | w)
+                ev = make_event(len(events), kind, r.get("mode", "abstract"), steps, g.universe | w, rrefs)
                 info[ev["id"]] = (kind, pth)
                 events.append(ev)
             verdicts = judge(rep, "c20-rp", events, info, r.get("mode", "abstract"))
